@@ -165,7 +165,7 @@ def consume(entry, text, work, encoding, how="text", preopen=None):
 STYLES = [{"in_attr": False}, {"in_attr": True}, {"in_attr": False, "pad": 3000}, {"in_attr": True, "pad": 70000}]
 # off-standard document shapes (still "any document" in the property's sense): for these only the refusal of entity
 # declarations and the absence of fetches / hangs is asserted - what a benign document of that shape parses to is not
-SHAPES = [{"shape": "xinclude"}, {"shape": "xinclude-xml", "in_attr": True}, {"shape": "binary-handle", "how": "binary"}, {"shape": "binary-buffered-handle", "how": "binary-buffered", "in_attr": True},
+SHAPES = [{"shape": "charrefs"}, {"shape": "leading-blank-lines"}, {"shape": "declared-utf16"}, {"shape": "declared-latin1", "in_attr": True}, {"shape": "xinclude"}, {"shape": "xinclude-xml", "in_attr": True}, {"shape": "binary-handle", "how": "binary"}, {"shape": "binary-buffered-handle", "how": "binary-buffered", "in_attr": True},
           {"shape": "same-path-same-size-after-benign", "preopen": True}, {"shape": "same-path-same-size-after-benign-attr", "preopen": True, "in_attr": True},
           {"shape": "no-namespace"}, {"shape": "legacy-namespace", "in_attr": True}, {"shape": "nul-tail"}, {"shape": "nul-tail-sector", "in_attr": True},
           {"shape": "nul-mid"}, {"shape": "bom"}, {"shape": "ws-tail", "in_attr": True}, {"shape": "pad-64k-1", "pad": 65536 - 60},
@@ -173,7 +173,27 @@ SHAPES = [{"shape": "xinclude"}, {"shape": "xinclude-xml", "in_attr": True}, {"s
           {"shape": "standalone"}, {"shape": "crlf", "in_attr": True}, {"shape": "upper-root-comment"}]
 
 
+# what an entity-free document of these shapes must parse to, per entry point
+SHAPE_RESULTS = {
+    "charrefs": {"ovf": "Café & disk.vmdk", "vbox": "Café & a.vdi", "pvs": "Café & a&b h.hdd", "hdd": "Café & <&> d.hds"},
+    "declared-utf16": {"ovf": "diskü✓.vmdk", "vbox": "aü✓.vdi", "pvs": "hü✓.hdd", "hdd": "dü✓.hds"},
+    "declared-latin1": {"ovf": "diskü✓.vmdk", "vbox": "aü✓.vdi", "pvs": "hü✓.hdd", "hdd": "dü✓.hds"},
+}
+
+
 def reshape(text, shape, rng):
+    if shape == "charrefs":
+        # numeric character references, the predefined &amp; and a CDATA section are not entity declarations: they decode
+        for a, b in (("<SystemName>h", "<SystemName>Caf&#233; &amp; <![CDATA[a&b]]> h"), ('location="a', 'location="Caf&#xE9; &amp; a'),
+                     ('href="disk', 'href="Caf&#233; &amp; disk'), ("<File>d", "<File>Caf&#233; &amp; <![CDATA[<&>]]> d")):
+            text = text.replace(a, b)
+        return text
+    if shape == "leading-blank-lines":
+        return "\n\n  \n" + text
+    if shape in ("declared-utf16", "declared-latin1"):
+        # a text handle: the declaration's encoding is irrelevant (the characters are already decoded)
+        return text.replace('<?xml version="1.0"?>', '<?xml version="1.0" encoding="%s"?>' % ("UTF-16" if shape == "declared-utf16" else "ISO-8859-1")).replace(
+            "<SystemName>h", "<SystemName>hü✓").replace('location="a', 'location="aü✓').replace('href="disk', 'href="diskü✓').replace("<File>d", "<File>dü✓")
     if shape in ("xinclude", "xinclude-xml"):
         # XInclude elements are ordinary elements to a parser that is not asked to process them: nothing may be read
         inc = (f'<xi:include xmlns:xi="http://www.w3.org/2001/XInclude" href="{SECRET[0]}" parse="text"/>' if shape == "xinclude"
@@ -273,6 +293,10 @@ def run(ctx):
                         ctx.violation({**a, "fail": "resources"}, {**det, "peak": peak, "verdict": verdict})
                     elif st["verdict"] == "refused" and verdict != "refused":
                         ctx.violation({**a, "fail": "entity-accepted"}, det)
+                    elif shaped and style["shape"] in SHAPE_RESULTS and not feats and enc == "utf-8":
+                        want = SHAPE_RESULTS[style["shape"]][st["entry"]]
+                        if verdict != "parsed" or res != [want]:
+                            ctx.violation({**a, "fail": "benign-misparsed", "shape": style["shape"]}, {**det, "want": want})
                     elif shaped:
                         pass  # benign documents of off-standard shapes: nothing further asserted
                     elif enc != "utf-8" and verdict == "refused":
